@@ -54,6 +54,11 @@ CLAIMED = {
    text="Decides necessary conditions of the ordered-map behaviour: search reports (value, true) and traverse invokes the visitor only under isRemoved == false of the entry reported, the tombstone is written only by insert's overwrite branch (AG2); Put's increment is reachable only through the 'lookup of the inserted key found nothing' edge and no insertion bypasses it, Remove's decrement and tombstoning only through a live-entry edge (AG4); search and insert descend into children[i].next exactly under (i+1 == m || key < children[i+1].key) with height-1, an equal leaf key can never reach the shifting insertion (AG3); height grows by one only in Put on a root split together with the root replacement (PT3); Get/Size/IsEmpty/Height are projections. Sortedness, split arithmetic, the height bound and Traverse order are not decided.",
    note="Trusted: go/ssa; gogu.Equal is ==, gogu.Less is <; missing unexported helpers degrade to undecided obligations (VIOLATION) instead of a checker failure.",
    ref="DESIGN.md section 3 E7, section 4 C10"),
+ "C04": dict(
+   technique="descent-direction agreement over comparator outcomes, no-subtree-lost path rule, successor pairing, counter discipline and state inventory on go/ssa over bstree/bstree.go",
+   text="Decides necessary conditions of the ordered-map behaviour: get, upsert and delete take Left exactly on Compare outcome 1, Right on -1 and hit otherwise, traverse emits Left, node, Right (AG3); every return of delete hands back n, or a child while the other is known nil, or nil while both are known nil, and recursion results are stored back into the field descended through (PT3 no subtree lost); the two-child case copies key and value of one min() node of the right subtree and deletes that key there (PV2); each size increment sits with linking NewNode(key,val) into a slot known nil, the decrement must follow err == nil (AG4; one known finding); values/links are written only at nodes reached by the descent (AG1); the container has no state beyond {mu, comp, root, size} (SI1). Results of concrete histories are not decided.",
+   note="Trusted: go/ssa; Compare's contract (1 iff comp(a,b), -1 iff comp(b,a)); strict-ordering comparator. Known finding: Delete decrements size for absent keys (pinned Example requires it).",
+   ref="DESIGN.md section 3 E7, section 4 C04"),
 }
 
 NOT_YET = "check not built yet (static-analysis engines under construction; see DESIGN.md section 7)"
